@@ -307,12 +307,15 @@ def life_cases(tier, seed, res):
                 if c.get('kind') == 'life':
                     consider([tuple(t) for t in c['tokens']], c['pforce'], 'corpus')
     L = 3 if tier == 'quick' else 4
+    srnd = random.Random(seed + 17)
     for n in range(1, L + 1):
         for toks in itertools.product(ADD_TOKENS + OTHER_TOKENS, repeat=n):
             if toks[0] not in ADD_TOKENS:
                 continue
-            consider(list(toks), 'FDefault', 'exhaustive')
-    for _ in range(2500 if tier == 'quick' else 25000):
+            if n == 4 and srnd.random() > 0.15:
+                continue        # histories of length 4: a seeded sample (every history up to length 3 is played)
+            consider(list(toks), 'FDefault', 'exhaustive' if n < 4 else 'length-4-sample')
+    for _ in range(2500 if tier == 'quick' else 10000):
         n = rnd.randint(3, 9)
         toks = []
         for j in range(n):
@@ -347,7 +350,7 @@ def rounds_cases(tier, seed, res):
         rounds = [([tuple(b) for b in bs], ins, [tuple(t) for t in sc]) for bs, ins, sc in c['rounds']]
         outs, d = run_rounds(pc.F, c['nw'], rounds, extra=c['extra'], retry=c['retry'])
         out.append((dict(nw=c['nw'], extra=c['extra'], retry=c['retry'], rounds=rounds), outs, d, 'corpus'))
-    N = 700 if tier == 'quick' else 8000
+    N = 700 if tier == 'quick' else 4000
     for _ in range(N):
         nw = rnd.randint(1, 3)
         extra = rnd.randint(0, 1)
@@ -623,7 +626,7 @@ def main(tier, seed, replay=None):
     logging.disable(logging.CRITICAL)
     core.quiet_stderr(PROP)
     res = core.Result(PROP, tier, seed)
-    res.rule = ('(1) life cycle: every history of length <= 2 (quick) / 3 (thorough) starting with a registration over 19 operation tokens '
+    res.rule = ('(1) life cycle: every history of length <= 2 starting with a registration over 19 operation tokens (thorough: and a seeded 15 % sample of those one step longer) '
                 '(add_worker with 6 kind/child-class/failing-hook variants, constructor failure, attach, add_worker handing back a registered worker, '
                 'kill first/last, restart_workers, close / terminate with and without force, leaving the with-block normally / through an exception) plus '
                 'seeded random histories of 3-9 operations over all five child classes and force settings, on the real Pool holding real persistent '
